@@ -88,7 +88,7 @@ def asan_env() -> Dict[str, str]:
     e["LD_PRELOAD"] = lib
     e["ASAN_OPTIONS"] = "detect_leaks=0:abort_on_error=1:halt_on_error=1:allocator_may_return_null=1:detect_odr_violation=0"
     e["UBSAN_OPTIONS"] = "halt_on_error=1:print_stacktrace=1"
-    e["PYTHONPATH"] = "/verif"
+    e["PYTHONPATH"] = str(Path(__file__).resolve().parent.parent)
     e["PYTHONHASHSEED"] = "0"
     e["PYTHONMALLOC"] = "malloc"
     return e
@@ -115,7 +115,7 @@ def run_children(items: List[dict], so: str, nproc: int = 16):
                     if f.exists():
                         f.unlink()
                 procs.append((k, shard, subprocess.Popen([sys.executable, "-m", "fjv.c11_child", so, str(wp), str(op), str(pp)],
-                                                         env=env, cwd="/verif", stdout=subprocess.DEVNULL, stderr=open(ep, "w")), op, pp, ep))
+                                                         env=env, cwd=str(Path(__file__).resolve().parent.parent), stdout=subprocess.DEVNULL, stderr=open(ep, "w")), op, pp, ep))
             new_pending = [[] for _ in pending]
             for k, shard, p, op, pp, ep in procs:
                 try:
